@@ -757,3 +757,31 @@ PROPS["C20"] = dict(
           "model names; native and fallback results equal the C interpretation."),
     assumptions=[],
 )
+
+PROPS["C07"] = dict(
+    variant="plain",
+    sources=ENGINE + ["engine/refsem.c", "engine/refprog.c", "props/c07_orcc.c"],
+    ldflags=["-rdynamic", "-Wl,--whole-archive", "{liborc}", "-Wl,--no-whole-archive", "-ldl"],
+    set=["cg_inc=-I{repo} -I{build}", "scratch={scratch}", "orcc={build}/tools/orcc"],
+    excludes=NATIVE_EXCLUDES + ["const-two-lane-sizes", "ftz-threshold"],
+    level="exploration",
+    technique="end-to-end differential property-based testing (rapidcheck): generated .orc files go through the real orcc and gcc, the generated functions are called through their C prototypes from a generated caller and compared with emulation of API-built twins; enumerated lengths/alignments for orc_memcpy/orc_memset against memcpy/memset",
+    level_text=("generated .orc files (1..3 functions, full opcode set, 2-D, accumulators, typed parameters) x orcc options (lazy or "
+                "--init-function, --compat none/0.4.8/0.4.14.1/0.4.30, --no-backup, --inline) x {JIT, ORC_CODE=backup, ORC_CODE=emulate, "
+                "DISABLE_ORC}; both orcc outputs compiled by gcc with a generated caller, every function called 1..3 times on guarded "
+                "arenas; orc_memcpy/orc_memset for all lengths 0..260 x 16x16 misalignments x three modes (enumerated, complete). The "
+                "generated part is sampled"),
+    level_note=("trusted base: gcc 12, the caller generator (argument order as tools/orcc.c:output_prototype), orc_executor_emulate of the "
+                "API-built twin as reference (C15 relates text to API, C02 relates emulation to the documentation); known native/emulation "
+                "findings of C01/C02/C18 are kept out by construction; --test mode output is not exercised"),
+    stages=[
+        dict(name="enum-memcpy-memset", mode="enum", quick=dict(), thorough=dict()),
+        dict(name="rc-orcc-end-to-end", mode="rc", quick=dict(cases=5000, max_size=500, budget=55), thorough=dict(cases=150000, max_size=800, budget=1800)),
+    ],
+    rule=("generated case = (.orc file, orcc options, run mode, 1..3 calls per function); inner evaluation = one call compared. Non-trivial: "
+          "at least one call compared. Oracle: orcc exits 0 for implementation and header; gcc accepts both with the caller; every call "
+          "leaves the destination bytes / accumulators emulation leaves (float: NaN and +-0 freedoms) and nothing else changes. "
+          "Enumerated case = (mode, destination misalignment): all lengths and source misalignments, both in the middle of a buffer "
+          "and ending at an unmapped page, equal memcpy/memset including the surrounding bytes."),
+    assumptions=["gcc 12.2 stands for the application's C compiler"],
+)
